@@ -458,9 +458,14 @@ def cal_angle_from_particle(
     for i in decay_chain_struct:
         data_i = cal_helicity_angle(data, i, base_z=base_z)
         decay_data[i] = data_i
-    # identical particles: the exchanged amplitudes are added, the spin of each
-    # final particle has to refer to a frame fixed by its own momentum only
-    if align_ref == "center_mass" or decay_group.identical_particles:
+    # identical particles / CP partners: the exchanged (CP conjugated) amplitudes
+    # are added, the spin of each final particle has to refer to a frame fixed
+    # by its own momentum only
+    if (
+        align_ref == "center_mass"
+        or decay_group.identical_particles
+        or decay_group.cp_particles
+    ):
         set_x, ref_matrix_final = aligned_angle_ref_rule2(
             decay_group, decay_chain_struct, decay_data, data, base_z=base_z
         )
